@@ -87,6 +87,7 @@ Definition op_result (st : state) (o : op) : option xres :=
   match o with
   | ORepoSync ca w lr dr => Some (snd (repo_sync st ca w lr dr))
   | OParentSync ca p pc ch r => Some (snd (parent_sync st ca p pc ch r))
+  | OChildMsg _ _ m => Some (msg_result m)
   | _ => None
   end.
 
@@ -172,15 +173,24 @@ Definition ok_success_flag (c : case) : bool :=
   end.
 
 (** the parent shows the outcome of the child's most recent request *)
+(** ... its last exchange, and - whatever the outcome - no suspension marker: a child whose request was
+    processed is active (the manager un-suspends it in the CA before processing) *)
+Definition child_shows (c : case) (pc ch : str) (x : xres) : bool :=
+  match view_child (c_post c) pc ch with
+  | Some y => opt_eqb xres_eqb (c_last y) (Some x) && negb (c_susp y)
+  | None => false
+  end.
 Definition ok_child (c : case) : bool :=
   match last_op (c_ops c) with
   | Some (OParentSync ca p pc ch r) =>
       match last_recorded (sent_messages r) with
-      | Some x => match view_child (c_post c) pc ch with
-                  | Some y => opt_eqb xres_eqb (c_last y) (Some x)
-                  | None => false
-                  end
+      | Some x => child_shows c pc ch x
       | None => true
+      end
+  | Some (OChildMsg pc ch m) =>
+      match recorded m with
+      | Some x => child_shows c pc ch x
+      | None => opt_eqb child_eqb (view_child (c_post c) pc ch) (view_child (c_pre c) pc ch)
       end
   | _ => true
   end.
